@@ -17,7 +17,45 @@ pub const DEFAULT_SEED: u64 = 20260926;
 /// per-worker cap on the distinct-hash sets (memory); counts are lower bounds beyond it
 const SET_CAP: usize = 1_500_000;
 
+/// A library panic while a *valid* value is emplaced, measured or deep-read through the public
+/// API is a violation of every claimed property's "never panics" / delivery clause (send() calls
+/// size(); the consumer reads the guard) – not a harness error.
+fn selftest_scenario(sc: &Scenario) -> RunOutput {
+    let r = {
+        use crate::c06::zoo_roundtrip;
+        with_zoo_type!(sc.type_index, zoo_roundtrip, 40)
+    };
+    let mut out = RunOutput {
+        violation: None,
+        harness_error: None,
+        tape: Default::default(),
+        full_hash: 0,
+        shape_hash: 0,
+        stats: [0; P::_COUNT as usize],
+        ticks: 0,
+        state_hashes: vec![],
+        nontrivial: true,
+        summary: Some(serde_json::json!({"selftest": type_name(sc.type_index)})),
+        calls: (0, 0, 0),
+        stream_len: 0,
+    };
+    match r {
+        Ok(()) => {}
+        Err(e) => match e.strip_prefix("PANIC:") {
+            Some(rest) => {
+                let (site, detail) = rest.split_once('|').unwrap_or(("", rest));
+                out.violation = Some(Violation { property: sc.property.clone(), oracle: "valid-value-usable".into(), kind: "panic".into(), site: site.into(), detail: format!("{}: {}", type_name(sc.type_index), detail) });
+            }
+            None => out.harness_error = Some(format!("{}: {}", type_name(sc.type_index), e)),
+        },
+    }
+    out
+}
+
 pub fn run_scenario(sc: &Scenario, keep_log: bool) -> RunOutput {
+    if sc.aux.selftest {
+        return selftest_scenario(sc);
+    }
     match sc.property.as_str() {
         "C06" => {
             use c06::run_c06;
@@ -243,16 +281,27 @@ pub fn run_check(prop: &str, tier: &str, seed: u64, workers: usize, backend: &st
     }
     let t0 = Instant::now();
     println!("flatsim: property={} tier={} VERIF_SEED={} workers={} backend={}", prop, tier, seed, workers, backend);
-    // the adapters are trusted; test them first (exit 2, never 1)
-    if selftest_zoo_quiet().is_err() {
-        eprintln!("harness error: zoo self-test failed");
-        return 2;
+    // the adapters are trusted; test them first (adapter problems: exit 2, never 1; a library
+    // panic on a valid value is a violation and is reported through the normal path below)
+    let mut selftest_found: Vec<Found> = Vec::new();
+    for ty in 0..N_TYPES {
+        let mut sc = base_scenario(prop, worlds_of(prop)[0], backend, ty, 0);
+        sc.aux.selftest = true;
+        let out = run_scenario(&sc, false);
+        if let Some(e) = out.harness_error {
+            eprintln!("harness error: zoo self-test: {}", e);
+            return 2;
+        }
+        if let Some(v) = out.violation {
+            selftest_found.push(Found { job: 0, sc, v });
+            break;
+        }
     }
     let findings = Arc::new(load_findings());
     let vdir = verif_dir();
     // regression corpus: minimised scenarios of repaired defects are replayed first
     let mut regress_runs = 0u64;
-    let mut found: Vec<Found> = Vec::new();
+    let mut found: Vec<Found> = selftest_found;
     if let Ok(rd) = std::fs::read_dir(vdir.join("regress")) {
         let mut files: Vec<_> = rd.filter_map(|e| e.ok()).map(|e| e.path()).filter(|p| p.extension().map(|x| x == "json").unwrap_or(false)).collect();
         files.sort();
@@ -615,6 +664,29 @@ pub fn minimise_seed(prop: &str, world: &str, ty: usize, seed: u64, backend: &st
 pub fn run_sequential(prop: &str, runs: u64, seed: u64, backend: &str, first: u64) -> i32 {
     let mut n = 0u64;
     let mut nontrivial = 0u64;
+    if std::env::var("FLATSIM_SEQ_SYS").is_ok() {
+        let sys: Vec<Scenario> = match prop {
+            "C09" => crate::c10::systematic_c09(backend, seed, "quick"),
+            "C10" => crate::c10::systematic_c10(backend, seed, "quick"),
+            _ => crate::c10::systematic_splits(prop, backend, seed, "quick"),
+        };
+        println!("{} systematic scenarios", sys.len());
+        for (i, sc) in sys.iter().enumerate() {
+            if (i as u64) < first {
+                continue;
+            }
+            if std::env::var("FLATSIM_SEQ_VERBOSE").is_ok() {
+                eprintln!("sys {} type={} aux={:?}", i, sc.type_name, sc.aux);
+            }
+            let out = run_scenario(sc, false);
+            if let Some(v) = out.violation {
+                println!("violation in systematic scenario {}: type={} aux={:?}: [{}] {}", i, sc.type_name, sc.aux, v.signature(), v.detail);
+                return 1;
+            }
+        }
+        println!("systematic layer clean");
+        return 0;
+    }
     for idx in first..first + runs {
         let tyname = type_name(job_type(idx));
         if cfg!(miri) && (tyname == "Fixed" || tyname == "FixedE") {
